@@ -4,6 +4,7 @@ real compiled extension module and reports every disagreement. Usage:
     run_scripts.py <scripts.json> <results.json>
 Environment: PYTHONPATH must contain the assembled `bourse` package and the stub directory."""
 import json
+import os
 import re
 import sys
 import traceback
@@ -239,6 +240,221 @@ class SelfOracle:
         }.get(m)
 
 
+# ---------------------------------------------------------------------------------------------------------------
+# C18 second opinion for StepEnv scripts whose values differ from the Rust twin's.
+# The twin is bourse_de::Env stepped with Xoroshiro128**::seed_from_u64(seed) - the generator the binding (and the
+# core's own runners) use. A binding that owns another generator is still a transparent view of the core as long as
+# every step applies exactly the submitted batch in *some* order: this replays the script, infers each step's
+# processing order from the time-stamps the object shows, reproduces the object's orders and trades on a plain
+# Python OrderBook (itself compared with the core by the OrderBook scripts), recomputes every scripted getter from
+# get_orders()/get_trades() of the same object, and checks determinism on a second object. What a single step cannot
+# show - instructions dropped before the shuffle leave the last time slot of the batch unused - is tested over all
+# steps with a Hoeffding bound (main()).
+# ---------------------------------------------------------------------------------------------------------------
+import itertools
+
+
+def _is_market(o):
+    return (o[0] and o[6] == PMAX) or ((not o[0]) and o[6] == 0)
+
+
+def _book_summary(orders):
+    act = [o for o in orders if o[1] == 1]
+    bids = [o for o in act if o[0]]
+    asks = [o for o in act if not o[0]]
+    bb = max((o[6] for o in bids), default=0)
+    ba = min((o[6] for o in asks), default=PMAX)
+    tb = [o for o in bids if o[6] == bb]
+    ta = [o for o in asks if o[6] == ba]
+    return {"bid_ask": [bb, ba], "bid_vol": sum(o[4] for o in bids), "ask_vol": sum(o[4] for o in asks),
+            "best_bid_vol": sum(o[4] for o in tb), "best_ask_vol": sum(o[4] for o in ta),
+            "best_bid_vol_and_orders": [sum(o[4] for o in tb), len(tb)], "best_ask_vol_and_orders": [sum(o[4] for o in ta), len(ta)]}
+
+
+def _replay(t0, tick, trading0, history):
+    """history: [("trading", flag) | ("step", start, step_size, [instructions in processing order])] -> (orders, trades)
+    in the environment's id space (None where the plain book has no such order yet)."""
+    ob = bourse.core.OrderBook(t0, tick, trading0)
+    idmap, inv = {}, {}
+    for h in history:
+        if h[0] == "trading":
+            (ob.enable_trading if h[1] else ob.disable_trading)()
+            continue
+        _, start, step_size, order = h
+        for i, ins in enumerate(order):
+            ob.set_time(start + i)
+            if ins[0] == "new":
+                sid = ob.place_order(ins[2], ins[3], ins[4], price=ins[5])
+                idmap[ins[1]] = sid
+                inv[sid] = ins[1]
+            elif ins[0] == "cancel":
+                if ins[1] in idmap:
+                    ob.cancel_order(idmap[ins[1]])
+            elif ins[1] in idmap:
+                ob.modify_order(idmap[ins[1]], new_price=ins[2], new_vol=ins[3])
+        ob.set_time(start + step_size)
+    so = norm(ob.get_orders())
+    st = norm(ob.get_trades())
+    orders = {e: so[sid][:8] + [e] for e, sid in idmap.items()}
+    trades = [[t[0], t[1], t[2], t[3], inv.get(t[4]), inv.get(t[5])] for t in st]
+    return orders, trades, ob
+
+
+def _signature(ob):
+    """complete state of a plain book incl. queue keys (its JSON snapshot): hypotheses with equal signatures are one"""
+    import tempfile
+    fd, path = tempfile.mkstemp(suffix=".json")
+    os.close(fd)
+    try:
+        ob.save_json_snapshot(path, False)
+        return open(path).read()
+    finally:
+        os.unlink(path)
+
+
+def stepenv_second_opinion(s, stats):
+    """('consistent', None) | ('violation', detail) | ('unsettled', why)"""
+    seed, t0, tick, step_size = s["ctor"]["args"][:4]
+    trading0 = s["ctor"].get("kwargs", {}).get("trading", True)
+    env, env2 = make(s["kind"], s["ctor"]), make(s["kind"], s["ctor"])
+    hyps, batch = [[]], []
+    now, steps = t0, 0
+    orders, trades = [], []        # as of the last step
+    pending_new = []               # records of orders submitted since
+    for ci, c in enumerate(s["calls"]):
+        m = c["m"]
+        if m.startswith("__"):
+            continue
+        args = [build_arg(a) for a in c.get("args", [])]
+        kwargs = {k: build_arg(v) for k, v in c.get("kwargs", {}).items()}
+        res = []
+        for e in (env, env2):
+            try:
+                res.append(("v", norm(getattr(e, m) if c.get("prop") else getattr(e, m)(*args, **kwargs))))
+            except BaseException as ex:  # noqa: BLE001
+                res.append(("exc", type(ex).__name__))
+        if res[0] != res[1]:
+            return "violation", "call %d %s: two StepEnv objects built from the same seed disagree: %r vs %r" % (ci, m, res[0], res[1])
+        kind, got = res[0]
+        exp = c["expect"]
+        if "exc" in exp or kind == "exc":
+            if kind != "exc" or exp.get("exc") != got:
+                return "violation", "call %d %s: expected %r got %r" % (ci, m, exp, res[0])
+            continue
+        if m == "place_order":
+            n_before = len(orders) + len(pending_new)
+            if got != n_before:
+                return "violation", "call %d place_order returned id %r, expected the next id %d" % (ci, got, n_before)
+            bid, vol, trader = args[0], args[1], args[2]
+            price = kwargs.get("price", args[3] if len(args) > 3 else None)
+            batch.append(("new", got, bid, vol, trader, price))
+            pending_new.append([bool(bid), 0, now, 2 ** 64 - 1, vol, vol, price if price is not None else (PMAX if bid else 0), trader, got])
+        elif m == "cancel_order":
+            batch.append(("cancel", args[0]))
+        elif m == "modify_order":
+            np_ = kwargs.get("new_price", args[1] if len(args) > 1 else None)
+            nv_ = kwargs.get("new_vol", args[2] if len(args) > 2 else None)
+            batch.append(("modify", args[0], np_, nv_))
+        elif m in ("enable_trading", "disable_trading"):
+            hyps = [h + [("trading", m == "enable_trading")] for h in hyps]
+        elif m == "step":
+            post, ptr = norm(env.get_orders()), norm(env.get_trades())
+            n, start = len(batch), now
+            slot, used = {}, set()
+            for k, ins in enumerate(batch):
+                if ins[0] == "new":
+                    o = post[ins[1]]
+                    sl = o[2] - start
+                    if o[1] == 0 or not (0 <= sl < n) or sl in used:
+                        return "violation", "step %d: new order %d shows status %d / arrival %d for a batch of %d starting at %d" % (steps, ins[1], o[1], o[2], n, start)
+                    slot[k] = sl
+                    used.add(sl)
+            prev = orders + pending_new
+            seen = set()
+            for k, ins in enumerate(batch):
+                if ins[0] == "cancel" and ins[1] not in seen and ins[1] < len(post):
+                    seen.add(ins[1])
+                    o = post[ins[1]]
+                    if not _is_market(o) and o[1] == 3 and prev[ins[1]][1] != 3:
+                        sl = o[3] - start
+                        if not (0 <= sl < n) or sl in used:
+                            return "violation", "step %d: order %d cancelled at %d, not a free slot of the batch" % (steps, ins[1], o[3])
+                        slot[k] = sl
+                        used.add(sl)
+            # a re-pricing that traded shows its slot through the trade's time-stamp (active id = the modified order)
+            new_slot_of = {ins[1]: slot[k] for k, ins in enumerate(batch) if ins[0] == "new"}
+            for t in ptr[len(trades):]:
+                sl = t[0] - start
+                oid = t[4]
+                if 0 <= sl < n and sl not in used and new_slot_of.get(oid) != sl:
+                    cands = [k for k, ins in enumerate(batch) if ins[0] == "modify" and ins[1] == oid and k not in slot]
+                    if cands and all(batch[k] == batch[cands[0]] for k in cands):
+                        slot[cands[0]] = sl
+                        used.add(sl)
+            unknown = [k for k in range(n) if k not in slot]
+            free = [i for i in range(n) if i not in used]
+            if len(unknown) > 7:
+                return "unsettled", "step %d: %d instructions without a visible time-stamp" % (steps, len(unknown))
+            # every processing order consistent with what the object shows is kept (two re-queuing modifications may
+            # leave identical records now and differ only in queue order, which a later fill reveals)
+            new_hyps, tried, sigs = [], set(), set()
+            for perm in itertools.permutations(unknown):
+                key = tuple(batch[k] for k in perm)
+                if key in tried:
+                    continue
+                tried.add(key)
+                order = [None] * n
+                for k, sl in slot.items():
+                    order[sl] = batch[k]
+                for k, sl in zip(perm, free):
+                    order[sl] = batch[k]
+                for h in hyps:
+                    ro, rt, ob = _replay(t0, tick, trading0, h + [("step", start, step_size, order)])
+                    if rt == ptr and len(post) == len(prev) and all((ro.get(i) == post[i]) if i in ro else post[i][1] == 0 for i in range(len(post))):
+                        sig = _signature(ob)
+                        if sig not in sigs:
+                            sigs.add(sig)
+                            new_hyps.append(h + [("step", start, step_size, order)])
+            if len(new_hyps) > 64:
+                return "unsettled", "step %d: more than 64 distinguishable schedules are consistent with what the object shows" % steps
+            if not new_hyps:
+                return "violation", "step %d: no processing order of the %d submitted instructions reproduces get_orders()/get_trades() on a plain OrderBook" % (steps, n)
+            hyps = new_hyps
+            if os.environ.get('BVMON_DEBUG_HYPS'):
+                print('step', steps, 'n', n, 'unknown', len(unknown), 'hyps', len(hyps), file=sys.stderr)
+            found = (hyps[0][-1][3], None)
+            n_new = sum(1 for ins in batch if ins[0] == "new")
+            if n >= 2 and 0 < n_new < n:
+                # new orders always show their slot: under a uniform shuffle of the whole batch the last slot holds one
+                # of them with probability n_new / n
+                stats.append((n_new / n, 1 if found[0][n - 1][0] == "new" else 0))
+            orders, trades, pending_new, batch = post, ptr, [], []
+            now += step_size
+            steps += 1
+        # every scripted value recomputed from the object's own order and trade lists
+        cur = orders + pending_new
+        want = None
+        if m == "get_orders":
+            want = cur
+        elif m == "get_trades":
+            want = trades
+        elif m == "time":
+            want = now
+        elif m == "trade_vol":
+            want = sum(t[3] for t in trades if now - step_size <= t[0] < now) if steps else 0
+        elif m == "order_status":
+            want = cur[args[0]][1]
+        elif m in ("bid_ask", "bid_vol", "ask_vol", "best_bid_vol", "best_ask_vol", "best_bid_vol_and_orders", "best_ask_vol_and_orders"):
+            want = _book_summary(orders)[m]
+        elif m in ("step", "place_order", "cancel_order", "modify_order", "enable_trading", "disable_trading"):
+            continue
+        else:
+            return "unsettled", "call %d: no independent expectation for %s" % (ci, m)
+        if got != want:
+            return "violation", "call %d %s: returned %r, recomputed from the object's own orders/trades %r" % (ci, m, got, want)
+    return "consistent", None
+
+
 def run_script(s, out):
     obj = make(s["kind"], s["ctor"])
     last_orders, last_trades = [], []
@@ -332,6 +548,19 @@ def run_script(s, out):
                         out["mismatches"].append({"script": s["id"], "call": ci, "m": m, "expected": {k: v}, "got": {k: got_n[k]}, "what": "series bound to key %r" % k})
                         return
                 out["dict_checks"] += 1
+            elif got_n != exp["v"] and s["kind"] == "stepenv" and oracle is None and "second_opinion" not in s:
+                s["second_opinion"] = stepenv_second_opinion(s, out["alt_stats"])
+                verdict, detail = s["second_opinion"]
+                if verdict == "unsettled":
+                    out["alt_unsettled_scripts"] += 1
+                    return
+                if verdict == "consistent":
+                    out["alt_schedule_scripts"] += 1
+                    if out["alt_first_mismatch"] is None:
+                        out["alt_first_mismatch"] = {"script": s["id"], "call": ci, "m": m, "args": c.get("args"), "kwargs": c.get("kwargs"), "expected": exp["v"], "got": got_n, "what": "return value"}
+                    return
+                out["mismatches"].append({"script": s["id"], "call": ci, "m": m, "args": c.get("args"), "kwargs": c.get("kwargs"), "expected": exp["v"], "got": got_n, "what": "return value", "second_opinion": "%s: %s" % (verdict, detail)})
+                return
             elif got_n != exp["v"]:
                 what = "return value"
                 if isinstance(exp["v"], list) and isinstance(got_n, list) and c.get("layout"):
@@ -361,7 +590,7 @@ def run_script(s, out):
 
 def main():
     doc = json.load(open(sys.argv[1]))
-    out = {"executed": 0, "exceptions": 0, "mismatches": [], "layout_checks": 0, "asymmetric_layout_checks": 0, "dict_checks": 0, "dataframe_checks": 0, "scripts": 0, "errors": [], "self_oracle_checks": 0, "twin_divergences": 0}
+    out = {"executed": 0, "exceptions": 0, "mismatches": [], "layout_checks": 0, "asymmetric_layout_checks": 0, "dict_checks": 0, "dataframe_checks": 0, "scripts": 0, "errors": [], "self_oracle_checks": 0, "twin_divergences": 0, "alt_schedule_scripts": 0, "alt_unsettled_scripts": 0, "alt_stats": [], "alt_first_mismatch": None}
     if doc.get("doc_tables"):
         out["doc"] = doc_tables()
     for s in doc["scripts"]:
@@ -372,6 +601,18 @@ def main():
             out["errors"].append({"script": s["id"], "error": "%s: %s" % (type(e).__name__, e), "trace": traceback.format_exc()[-1500:]})
         if len(out["mismatches"]) >= 20:
             break
+    # scripts that followed another (valid) schedule than the Rust twin: were instructions dropped before the shuffle?
+    st = out.pop("alt_stats")
+    out["alt_schedule_steps_tested"] = len(st)
+    if st:
+        import math
+        k, x, mu = len(st), sum(v for _, v in st), sum(p for p, _ in st)
+        thr = math.sqrt(0.5 * k * math.log(2 / 1e-9))
+        out["alt_schedule_last_slot"] = {"steps": k, "last_slot_holds_a_new_order": x, "expected": round(mu, 1), "hoeffding_threshold": round(thr, 1)}
+        if abs(x - mu) > thr and out["alt_first_mismatch"] is not None:
+            mm = dict(out["alt_first_mismatch"])
+            mm["second_opinion"] = "every step is some processing order of its batch, but over %d steps the last time slot of the batch held a new order %d times where a uniform shuffle of the whole batch gives %.0f +- %.0f: instructions are dropped, added or re-ordered before the shuffle" % (k, x, mu, thr)
+            out["mismatches"].append(mm)
     out["numpy"] = np.__version__
     out["python"] = sys.version.split()[0]
     json.dump(out, open(sys.argv[2], "w"))
